@@ -97,7 +97,7 @@ def check_range_gate(ctx, fb):
             continue
         ctx.touch(f)
         e2 = Engine(fb, inline=lambda i: False)
-        oks = [p for p in e2.run(f) if p.kind == "return" and known_ok(e2.value_of(p.store, p.ret)) is True]
+        oks = [p for p in e2.run(f) if p.kind == "return" and known_ok(e2.value_of(p.store, p.ret)) is not False]
         allc = bool(oks) and all(any(cond_map(p).get(("ok", ("call", c[1], c[2]))) is True for c in p.calls(r"protocol::message_id_range_check$")) for p in oks)
         n += 1 if allc else 0
         ctx.check(allc, "R12-2", "range check in %s" % u.split("::")[-1], "every success path passed message_id_range_check",
@@ -108,7 +108,7 @@ def check_range_gate(ctx, fb):
     for u in ("rln::protocol::proof_values_from_witness", "rln::protocol::inputs_for_witness_calculation"):
         f = fb.need(u)
         e2 = Engine(fb, inline=lambda i: False)
-        oks = [p for p in e2.run(f) if p.kind == "return" and known_ok(e2.value_of(p.store, p.ret)) is True]
+        oks = [p for p in e2.run(f) if p.kind == "return" and known_ok(e2.value_of(p.store, p.ret)) is not False]
         good = bool(oks) and sc is not None and all(any(cond_map(p).get(("ok", ("call", c[1], c[2]))) is True and c[2] == (F(P(1), "path_elements"), F(P(1), "identity_path_index"))
                                                         for c in p.calls(r"protocol::merkle_path_shape_check$")) for p in oks)
         ctx.check(good, "R12-2", "path shape check in %s" % u.split("::")[-1], "success requires equal vector lengths and binary direction values",
@@ -117,7 +117,7 @@ def check_range_gate(ctx, fb):
         ctx.touch(sc)
         e3 = Engine(fb, inline=lambda i: False)
         ps = e3.run(sc)
-        oks = [p for p in ps if p.kind == "return" and known_ok(e3.value_of(p.store, p.ret)) is True]
+        oks = [p for p in ps if p.kind == "return" and known_ok(e3.value_of(p.store, p.ret)) is not False]
         good = False
         why = "expected one accepting path, found %d" % len(oks)
         if len(oks) == 1:
